@@ -97,8 +97,8 @@ var cfgExpectV = map[int]string{1: "lit", 4: "dflt", 8: "cfgval", 9: "deep"}
 var cfgPrefix = map[int][2]string{5: {"absent.sec,required=false", ""}, 6: {"", "absent.sec"}, 7: {"absent.sec,required=false", "absent.sec"},
 	11: {"sec", ""}}
 
-// cfg 12: a time.Time field bound by prefix WITH a validate argument (validator.Struct refuses a time.Time: the start fails
-// with an error)
+// cfg 12: a time.Time field bound by prefix WITH a validate argument: the configured time is valid, the start succeeds (since
+// the repair of defect D25; before it the validate stage handed the time to validator.Struct, which refuses it)
 const cfgTimeTag = "tm,validate=required"
 
 type failLoader struct{}
@@ -615,6 +615,9 @@ func runGraph(sc *gScen) *gRun {
 			}
 			if want, ok := cfgExpectV[sc.nodes[i].cfg]; ok && b.V != want {
 				res.cfgBad = append(res.cfgBad, fmt.Sprintf("%d.V holds %q, configured %q", i, b.V, want))
+			}
+			if sc.nodes[i].cfg == 12 && b.WT.IsZero() {
+				res.cfgBad = append(res.cfgBad, fmt.Sprintf("%d.WT is the zero time, configured 2024-05-06T07:08:09Z", i))
 			}
 			if sc.nodes[i].cfg == 11 && b.W0.A != "good" {
 				res.cfgBad = append(res.cfgBad, fmt.Sprintf("%d.W0.A holds %q, configured %q (the section also has the keys _a, a-, a_)", i, b.W0.A, "good"))
